@@ -3,6 +3,7 @@ import DimodProofs.EnumProd
 import DimodProofs.EnumCqm
 import DimodProofs.EnumEnergy
 import DimodProofs.EnumPoly
+import DimodProofs.EnumInit
 
 /-! # C07 — samplers and composites report each row's true energy over the right variables
 
@@ -141,6 +142,25 @@ theorem poly_fix_eval (p : Poly) (fixed : List (Label × Rat)) (x : Label → Ra
     polyEnergy x (fixVariables true p fixed) = polyEnergy (override x fixed) p :=
   fixVariables_energy p fixed x hp hc
 
+/-- `expand_initial_state` (HigherOrderComposite with `initial_state=`): with the reductions listed in the
+    order they were made (factors known, product / auxiliary labels new), the given values are kept and
+    every product variable ends up as the product of its factors — the expanded state satisfies every
+    penalty `p = u·v` -/
+theorem expand_initial_state_products (reds : List RedX) (st : List (Label × Rat)) (known : List Label) (hf : Fresh reds known) :
+    (∀ l ∈ known, stVal (expandInitialState reds st) l = stVal st l) ∧
+    ∀ d ∈ reds, stVal (expandInitialState reds st) d.p =
+      stVal (expandInitialState reds st) d.u * stVal (expandInitialState reds st) d.v :=
+  expandInitialState_spec reds st known hf
+
+/-- … and the auxiliary spin a SPIN reduction writes is ±1 and minimises its penalty term `en·aux` -/
+theorem expand_initial_state_aux (st : List (Label × Rat)) (d : RedX) (known : List Label)
+    (hu : d.u ∈ known) (hv : d.v ∈ known) (hp : d.p ∉ known) (a : Label) (cu cv cp : Rat)
+    (haux : d.aux = some (a, cu, cv, cp)) (hak : a ∉ known) (hap : a ≠ d.p) :
+    let s := expandStep st d
+    let en := stVal s d.u * cu + stVal s d.v * cv + stVal s d.p * cp
+    (stVal s a = 1 ∨ stVal s a = -1) ∧ en * stVal s a ≤ en * (- stVal s a) :=
+  expandStep_aux_minimises st d known hu hv hp a cu cv cp haux hak hap
+
 /-- Truncate / PolyTruncate with `sorted_by=None`: the returned rows are a sub-list of the child's rows
     (energies and labels untouched) -/
 theorem truncate_rows_subset (n : Nat) (rows : List Row) : (truncateRows n rows).Sublist rows :=
@@ -164,6 +184,8 @@ example : graycode 2 = [[0, 0], [1, 0], [1, 1], [0, 1]] := by decide +kernel
 example : allCasesDqm [2, 3] = [[0, 0], [0, 1], [0, 2], [1, 0], [1, 1], [1, 2]] := by decide +kernel
 example : allCasesCqm [2] [[5, 6]] = [[1, 0, 5], [1, 0, 6], [0, 1, 5], [0, 1, 6]] := by decide +kernel
 example : intDomain (1/2) 3 = [1, 2, 3] := by decide +kernel
+example : expandInitialState [⟨.str "a", .str "b", .str "p", some (.str "x", 2, 2, 2)⟩] [(.str "a", 1), (.str "b", -1)]
+    = [(.str "a", 1), (.str "b", -1), (.str "p", -1), (.str "x", 1)] := by decide +kernel
 example : OneConst [([], 5), ([.str "a"], 1)] := by unfold OneConst; decide +kernel
 
 end C07
